@@ -15,6 +15,13 @@
 (* unchanged, a consumer that drives ready freely (every stall pattern).   *)
 (* Requests are the legal bursts (AxiBurst!LegalShape) of the configured   *)
 (* parameter set  c = [bus, addrs, lens, maxsize, bursts, ids].            *)
+(* Optional field  c.junk  (a sequence of <<addr, len, size, burst, id>>): *)
+(* if present, the producer may drive ANYTHING of JunkLines(c) on the      *)
+(* request lines while it offers nothing (valid low): the stream protocol  *)
+(* defines the payload only under valid.  JunkLines = every request of the *)
+(* set (stale / early payload of a neighbouring request) and the listed    *)
+(* tuples (values that are no legal request at all, e.g. burst = 3).       *)
+(* Configurations without the field keep the all-zero idle lines.          *)
 (*                                                                         *)
 (* Clauses (what the property's statement demands, nothing internal):      *)
 (*   BeatAddress  a presented beat belongs to the offered request, it is   *)
@@ -45,17 +52,21 @@ Requests(c) ==
 
 ReqOf(iv) == <<iv[2], iv[3], iv[4], iv[5], iv[6]>>
 
+IdleJunk(c) == "junk" \in DOMAIN c
+JunkLines(c) == IF IdleJunk(c) THEN Requests(c) \cup { <<j[1], j[2], j[3], j[4], j[5]>> : j \in SeqRange(c.junk) } ELSE {}
+
 Inputs(c) ==
   IF hold # <<>>
   THEN { <<1, hold[1], hold[2], hold[3], hold[4], hold[5], r>> : r \in {0, 1} }
   ELSE { <<0, 0, 0, 0, 0, 0, r>> : r \in {0, 1} } \cup
-       { <<1, q[1], q[2], q[3], q[4], q[5], r>> : q \in Requests(c), r \in {0, 1} }
+       { <<1, q[1], q[2], q[3], q[4], q[5], r>> : q \in Requests(c), r \in {0, 1} } \cup
+       { <<0, q[1], q[2], q[3], q[4], q[5], r>> : q \in JunkLines(c), r \in {0, 1} }
 
 (* the same as  iv \in Inputs(c)  without building the set (trace validation) *)
 InputLegal(c, iv) ==
   /\ iv[7] \in {0, 1}
   /\ IF hold # <<>> THEN iv[1] = 1 /\ ReqOf(iv) = hold
-     ELSE IF iv[1] = 0 THEN ReqOf(iv) = <<0, 0, 0, 0, 0>>
+     ELSE IF iv[1] = 0 THEN (ReqOf(iv) = <<0, 0, 0, 0, 0>> \/ ReqOf(iv) \in JunkLines(c))
      ELSE iv[1] = 1 /\ ReqOf(iv) \in Requests(c)
 
 CInit ==
